@@ -494,3 +494,20 @@ mod civil_tests {
         assert_eq!(civil_from_days(2_932_896), (9999, 12, 31));
     }
 }
+
+/// A constructor string for the given instant written with the given UTC offset (minutes); None outside 0000..=9999.
+pub fn datetime_spelling(ms: i64, off_min: i64) -> Option<String> {
+    let local = ms as i128 + off_min as i128 * 60_000;
+    let day = i64::try_from(local.div_euclid(MS_PER_DAY)).ok()?;
+    if !(-719_528..=2_932_896).contains(&day) {
+        return None;
+    }
+    let tod = local.rem_euclid(MS_PER_DAY) as i64;
+    let (y, m, d) = civil_from_days(day);
+    if !(0..=9999).contains(&y) {
+        return None;
+    }
+    let (h, mi, s, milli) = (tod / 3_600_000, tod / 60_000 % 60, tod / 1000 % 60, tod % 1000);
+    let off = if off_min == 0 { "Z".to_string() } else { format!("{}{:02}{:02}", if off_min < 0 { '-' } else { '+' }, off_min.abs() / 60, off_min.abs() % 60) };
+    Some(format!("{y:04}-{m:02}-{d:02}T{h:02}:{mi:02}:{s:02}.{milli:03}{off}"))
+}
